@@ -545,6 +545,8 @@ class G:
                 for tname in self.pick([["building"], ["building", "highway"], ["amenity", "building", "name"]]):
                     row = {"list_name": ln, "name": tname}
                     self.put_translated(row, "label", lambda: self.text("OT"), p_lang=bool(self.langs) and self.p("_", 0.6))
+                    if self.P.get("p_osm_media", 0) and self.p("p_osm_media"):
+                        row[self.pick(["image", "media::image", "audio"])] = f"tag{len(self.osm_rows)}.png"      # the osm sheet takes the choices sheet's columns
                     self.osm_rows.append(row)
                 if self.P.get("p_osm_self", 0) and self.p("p_osm_self"):
                     # a tag named like the list it is in; two lists whose tags name each other
